@@ -12,6 +12,8 @@ package symgo
 // accessors; the condition is checked by review, not by the engine.
 
 import (
+	"sort"
+	"os"
 	"fmt"
 	"math/big"
 )
@@ -169,6 +171,10 @@ func (i *interpreter) callMerged(run func() value) value {
 		}
 		p.assume(any)
 	}
+	// The order in which the cases were found depends on the path's current model; the
+	// decisions below are replayed positionally when the path prefix is re-executed, so
+	// the order must not: sort by path condition.
+	sort.SliceStable(cases, func(a, b int) bool { return cases[a].pc.String() < cases[b].pc.String() })
 	// group by shape
 	type group struct {
 		pc    *Term
@@ -194,6 +200,12 @@ func (i *interpreter) callMerged(run func() value) value {
 		}
 		if !placed {
 			groups = append(groups, &group{pc: c.pc, res: c.res, panic: c.panic, seq: c.seq})
+		}
+	}
+	if os.Getenv("VX_MERGEDBG") != "" {
+		fmt.Fprintf(os.Stderr, "MERGE cases=%d groups=%d\n", len(cases), len(groups))
+		for _, c := range cases {
+			fmt.Fprintf(os.Stderr, "  case pc=%s res=%s panic=%v\n", c.pc.String(), toString(c.res), c.panic)
 		}
 	}
 	var chosen *group
